@@ -17,9 +17,9 @@ def run_jobs(jobs):
 def run(ctx, kind, rule):
     q = ctx.quick; s = ctx.seed; jobs = []
     for k in range(16 if q else 48):
-        jobs.append({"variant": "plain", "args": {"kind": kind, "seed": s * 1000 + k, "n": 12 if q else 80, "nparam": 10, "npts": 160 if q else 260}, "out": ctx.path("off_%02d.ndjson" % k)})
+        jobs.append({"variant": "plain", "args": {"kind": kind, "seed": s * 1000 + k, "n": 12 if q else 40, "nparam": 10, "npts": 160 if q else 260}, "out": ctx.path("off_%02d.ndjson" % k)})
     run_jobs(jobs)
-    res = core.validate_traces("OffsetTrace", "OffsetTrace.cfg", [j["out"] for j in jobs], timeout=2400)
+    res = core.validate_traces("OffsetTrace", "OffsetTrace.cfg", [j["out"] for j in jobs], timeout=3600)
     byf = {j["out"]: j for j in jobs}
     cls = [0, 0, 0]
     for f, r in res:
